@@ -57,6 +57,10 @@ def sizes_ok(blocks, spec, n):
         return all(len(b) == spec[1] for b in blocks)
     if spec[0] == "var":
         return len(set(len(b) for b in blocks)) <= 1
+    if spec[0] == "vardom":  # one size variable with its own domain lo..hi
+        return len(set(len(b) for b in blocks)) <= 1 and spec[1] <= len(blocks[0]) <= spec[2]
+    if spec[0] == "varlist":  # per-vertex size variables with their own domains (None = no size given)
+        return all(d is None or d[0] <= where[v] <= d[1] for v, d in enumerate(spec[1]))
     return all(s is None or where[v] == s for v, s in enumerate(spec[1]))
 
 
@@ -77,6 +81,10 @@ def build_plain(case):
         gs = spec[1]
     elif spec[0] == "var":
         gs = s.int_var(1, n)
+    elif spec[0] == "vardom":
+        gs = s.int_var(spec[1], spec[2])
+    elif spec[0] == "varlist":
+        gs = [None if d is None else s.int_var(d[0], d[1]) for d in spec[1]]
     elif spec[0] == "fresh-ints":
         gs = [int(str(spec[1])) for _ in range(n)]  # equal values, distinct objects
     elif spec[0] == "mixed":
@@ -185,6 +193,8 @@ def build_borders(case):
             gs = [int(str(spec[1])) for _ in range(n)]
         elif spec[0] == "mixed":
             gs = [s.int_var(1, n) if x is None else x for x in spec[1]]
+        elif spec[0] == "varlist":
+            gs = [None if d is None else s.int_var(d[0], d[1]) for d in spec[1]]
         else:
             gs = list(spec[1])
         graph.division_connected_variable_groups_with_borders(
@@ -216,7 +226,7 @@ def run_borders(part, case, prange=None):
     n, edges = case["n"], case["edges"]
     spec = case["spec"]
     prim = case["prim"] is True or (case["prim"] == "default" and case["cfg"])
-    key = "borders[%s,%s,%s]" % (case["form"], "native" if prim else "aux", "absent" if spec is None else ("list" if spec[0] == "list" else spec[0]))
+    key = "borders[%s,%s,%s]" % (case["form"], "native" if prim else "aux", "absent" if spec is None else ("list" if spec[0] == "list" else spec[0]))  # noqa
     with gcheck.GraphConfig(use_graph_division_primitive=bool(case["cfg"])):
         try:
             s, bvars, extra = build_borders(case)
@@ -228,9 +238,19 @@ def run_borders(part, case, prange=None):
         if nat != (1 if prim else 0):
             part.violation(key + ":encoding-choice", case, {"native_operators": nat})
         sizes = ([spec[1]] * n if spec[0] == "fresh-ints" else spec[1]) if spec is not None else [None] * n
+        doms = None
+        if spec is not None and spec[0] == "varlist":
+            doms, sizes = spec[1], [None] * n
         pats = [tuple(bool(b) for b in pt) for pt in case["patterns"]] if "patterns" in case else gcheck.patterns(len(edges), prange)
         for pattern in pats:
             exp = graphref.division_ok(n, edges, sizes, pattern)
+            if exp and doms is not None:
+                blocks = graphref.blocks_after_cut(n, edges, pattern)
+                size_of_v = {}
+                for blk in blocks:
+                    for v in blk:
+                        size_of_v[v] = len(blk)
+                exp = all(d is None or d[0] <= size_of_v[v] <= d[1] for v, d in enumerate(doms))
             gcheck.judge(part, key, case, pattern, exp, s, [gcheck.fix(v, b) for v, b in zip(bvars, pattern)] + extra)
     if "patterns" in case:
         part.add("scale", (n, "borders"))
@@ -311,6 +331,33 @@ def cases_for(tier):
                 continue
             for prim, cfg in ((False, False), (True, False)):
                 out.append({"variant": "borders", "form": "inner-frame", "shape": [h, w], "n": n, "edges": edges, "spec": spec, "prim": prim, "cfg": cfg})
+    # size variables with their own domains: one scalar variable lo..hi; per-vertex variables with touching / singleton / wide domains
+    def dom_lists(n):
+        return [
+            [(1, 2) if v % 2 == 0 else (2, 3) for v in range(n)],
+            [(2, 2)] * n,
+            [(1, n) if v else (2, 2) for v in range(n)],
+            [None if v % 2 else (1, 1) for v in range(n)],
+            [(n, n) if v == n - 1 else (1, n) for v in range(n)],
+        ]
+
+    for n in range(1, 5):
+        for edges in graphref.simple_graphs(n):
+            if n == 4 and (len(edges) not in (3, 4) or tier == "quick" and len(edges) != 3):
+                continue
+            for lo, hi in ((2, 3), (3, 3), (2, n), (0, n + 1), (n, n), (1, 1), (2, 2)):
+                out.append({"variant": "plain", "form": "graph", "n": n, "edges": list(edges), "spec": ("vardom", lo, hi)})
+            for doms in dom_lists(n):
+                out.append({"variant": "plain", "form": "graph", "n": n, "edges": list(edges), "spec": ("varlist", doms)})
+                if n <= 3:
+                    for prim in (False, True):
+                        out.append({"variant": "borders", "form": "graph", "n": n, "edges": list(edges), "spec": ("varlist", doms), "prim": prim, "cfg": False})
+            if n <= 3:
+                # an explicit use_graph_primitive=False must win over a global default of True
+                out.append({"variant": "borders", "form": "graph", "n": n, "edges": list(edges), "spec": None, "prim": False, "cfg": True})
+    for h, w in ((2, 2), (1, 3), (2, 3)):
+        for lo, hi in ((2, 3), (2, 2), (3, 3)):
+            out.append({"variant": "plain", "form": "grid", "shape": [h, w], "n": h * w, "spec": ("vardom", lo, hi)})
     # structured mid-sized graphs (cycles sharing a vertex, degree-4 trees, isolated vertices): all set partitions / all border patterns
     for name, n, es in graphref.zoo():
         relab = name.endswith("~relabelled")
